@@ -162,7 +162,10 @@ func (m *Model) changeActiveMode(id string) (*traits.ElectricMode, error) {
 		return nil, ErrModeNotFound
 	}
 
-	updated, err := m.activeMode.Set(mode, resource.InterceptAfter(func(old, new proto.Message) {
+	// mode is the message the modes collection stores (a read without a mask hands out the stored message itself);
+	// a write may edit the message it is given - with writable fields configured on the active mode resource it
+	// filters it in place - so the write gets its own copy
+	updated, err := m.activeMode.Set(proto.Clone(mode), resource.InterceptAfter(func(old, new proto.Message) {
 		oldMode := old.(*traits.ElectricMode)
 		newMode := new.(*traits.ElectricMode)
 		if oldMode.Id != newMode.Id {
